@@ -9,6 +9,7 @@ import DvcData.Model.Status
 import DvcData.Model.Transfer
 import DvcData.Model.IndexDiff
 import DvcData.Model.IndexCheckout
+import DvcData.Model.IndexSave
 import DvcData.Model.State
 import DvcData.Model.Store
 import DvcData.Model.Checkout
@@ -367,6 +368,21 @@ def opIndexDiff (j : Lean.Json) : Except String Lean.Json := do
   let cs := IndexDiff.diff o old new
   pure (Lean.Json.mkObj [("changes", Lean.Json.arr (cs.map fun c =>
     Lean.Json.arr #[.str (typTo c.typ), optKeyTo c.old, optKeyTo c.new]).toArray)])
+
+/-- `save(index, odb)`: the entries after the directory loop, the listing bytes filed for every directory,
+    and the identifiers handed to `cache.add` -/
+def opIndexSave (j : Lean.Json) : Except String Lean.Json := do
+  match ← indexOf (← j.getObjVal? "index") with
+  | none => throw "index_save: no index"
+  | some idx =>
+    let saved := IndexSave.saveDirs md5Chars idx
+    let dirs := idx.filter fun e => IndexSave.isDirEntry e.2
+    pure (Lean.Json.mkObj [
+      ("entries", Lean.Json.arr (saved.map fun e => Lean.Json.mkObj [("key", keyTo e.1), ("entry", entryTo e.2)]).toArray),
+      ("trees", Lean.Json.arr (dirs.map fun e => Lean.Json.mkObj [("key", keyTo e.1),
+          ("bytes", String.ofList (Tree.asBytes false (IndexSave.treeBelow idx e.1)))]).toArray),
+      ("file_oids", Lean.Json.arr ((IndexSave.fileOids idx).map fun o => Lean.Json.str (String.ofList o)).toArray),
+      ("idempotent", .bool (IndexSave.saveDirs md5Chars saved == saved))])
 
 def optEntryOf (j : Lean.Json) : Except String (Option MetaInfo.Entry) :=
   match j with | .null => pure none | j => do pure (some (← entryOf j))
@@ -757,6 +773,7 @@ def dispatch (j : Json) : Except String Json := do
   | "gc" => opGc j
   | "index_diff" => opIndexDiff j
   | "diff_entry" => opDiffEntry j
+  | "index_save" => opIndexSave j
   | "idx_checkout" => opIdxCheckout j
   | "state_history" => opStateHistory j
   | "store_history" => opStoreHistory j
